@@ -143,20 +143,17 @@ def step (st : St) (j : Json) : Except String (St × Json) := do
     let n := initNode (← jCls (← field j "cls"))
     return ({ st with node := n }, Json.mkObj [("state", state n)])
   | "setCommit" =>
-    let n := { st.node with commit := ← jNat (← field j "v") }
+    let (n, _) := PSO.Versions.step st.node (.setCommit (← jNat (← field j "v")))
     return ({ st with node := n }, Json.mkObj [("ok", Json.bool true)])
   | "append" =>
-    let n := { st.node with log := st.node.log ++ (← jEntries (← field j "entries")) }
+    let (n, _) := PSO.Versions.step st.node (.append (← jEntries (← field j "entries")))
     return ({ st with node := n }, Json.mkObj [("ok", Json.bool true)])
   | "subscribe" =>
-    let idx ← jNat (← field j "idx")
-    let sub := (← jNat (← field j "term"), ← jNat (← field j "cb"))
-    let w := st.node.waiting
-    let w' := if w.any (fun p => p.1 == idx) then w.map (fun p => if p.1 == idx then (p.1, p.2 ++ [sub]) else p)
-              else w ++ [(idx, [sub])]
-    return ({ st with node := { st.node with waiting := w' } }, Json.mkObj [("ok", Json.bool true)])
+    let (n, _) := PSO.Versions.step st.node
+      (.subscribe (← jNat (← field j "idx")) (← jNat (← field j "term")) (← jNat (← field j "cb")))
+    return ({ st with node := n }, Json.mkObj [("ok", Json.bool true)])
   | "apply" =>
-    let (n, evs) := applyLogEntries st.node
+    let (n, evs) := PSO.Versions.step st.node .tick
     return ({ st with node := n }, Json.mkObj [("ev", Json.arr (evs.map ev).toArray), ("state", state n)])
   | "setver" =>
     let r := match setCodeVersion st.node (← jNat (← field j "v")) with
